@@ -7,12 +7,13 @@ Numerical behaviour (cancellation, monotonicity numerics, |R| <= 1) is not decid
 import ast
 import sympy as sp
 from ..core import AnalysisError, norm, dotted, calls_in, walk_no_nested, const_value
+from ..flow import Flow
 from ..alg import Sym, is_zero, Unsupported, PathRaised
 from .C09 import decide
 
 EM = "typhon/physics/em.py"
 EXPECT = {"C08.forms": 3, "C08.inverse": 2, "C08.ratio": 1, "C08.units": 8, "C08.perunit": 14, "C08.snell": 3, "C08.dtype": 1, "C08.pure": 19,
-          "C08.fresnel0": 1, "C08.brewster": 2}
+          "C08.fresnel0": 1, "C08.brewster": 2, "C08.total": 1}
 
 
 def branchwise(ctx, construct, value, spec, fact_fmt, oracle, node, func):
@@ -316,6 +317,30 @@ def rule_fresnel(ctx):
     v, info = is_zero(Rh)
     ctx.ob("fresnel(brewster).Rh", v is False, "Rh at the Brewster angle = %s" % Rh, "non-zero for n1 != n2 (tells Rv and Rh apart)",
            node=f.node, func=f)
+    # beyond the angle of total reflection snell() answers NaN: |Rv|, |Rh| <= 1 needs the documented value 1 there
+    ctx.rule("C08.total", "T1", "fresnel: where the refracted angle is NaN (total reflection) both coefficients are set to 1")
+    fl = Flow(f)
+    rets = [r_ for r_ in fl.stmts if isinstance(r_, ast.Return) and isinstance(r_.value, ast.Tuple) and len(r_.value.elts) == 2]
+    if len(rets) != 1:
+        raise AnalysisError("fresnel: expected one return of (Rv, Rh)")
+    th2 = [st_.targets[0].id for st_ in fl.stmts if isinstance(st_, ast.Assign) and isinstance(st_.targets[0], ast.Name) and calls_in(st_.value, "snell")]
+    if len(th2) != 1:
+        raise AnalysisError("fresnel: the refracted angle (result of snell) was not found")
+    handled = []
+    for e_ in rets[0].value.elts:
+        v_ = fl.resolve(e_, at=rets[0], depth=3, stop=(th2[0],) + tuple(f.params))
+        while isinstance(v_, ast.Subscript) and isinstance(v_.slice, ast.Tuple) and not v_.slice.elts:
+            v_ = v_.value
+        ok_ = False
+        if isinstance(v_, ast.Call) and (dotted(v_.func) or "").split(".")[-1] == "where" and len(v_.args) == 3:
+            m_ = fl.resolve(v_.args[0], at=rets[0], depth=3, stop=(th2[0],) + tuple(f.params))
+            nan_test = any(isinstance(c_, ast.Call) and (dotted(c_.func) or "").split(".")[-1] == "isnan" and c_.args and str(norm(c_.args[0])) == th2[0] for c_ in ast.walk(m_))
+            one = str(norm(v_.args[1])) in ("1.0", "1", "1.0 + 0j")
+            ok_ = nan_test and one
+        handled.append(ok_)
+    ctx.ob("fresnel.total_reflection", all(handled), "Rv, Rh pass through np.where(isnan(%s) ..., 1.0, R): %s" % (th2[0], handled),
+           "both coefficients are 1 where the refracted angle is NaN and the inputs are not (docstring: 'Rv and Rh are here set to 1'; NaN is not <= 1)",
+           node=rets[0], func=f, witness=None if all(handled) else {"n1": 1.5, "n2": 1.0, "theta1": 60.0, "fresnel": "(nan, nan)"})
 
 
 INT_TRUNCATING = {"reciprocal": "np.reciprocal of an integer array is integer division (1/500 -> 0)", "floor_divide": "integer division"}
